@@ -563,7 +563,7 @@ class Prop(fw.PropBase):
                 dis.append(dict(tag, model=sorted(exp.items()), impl=sorted((got or {}).items())))
             # the python oracle used by search() is the Coq [decl] (theorem statement) - tie them
             dd = {tuple(c[:5]): c[5] for c in md[0]}
-            ps = py_spec(lib, run)
+            ps = py_spec(lib, run) if run['b'] > 0 else {}
             if run['b'] > 0 and (dd != ps or md[1] != sum(ps.values())):
                 dis.append(dict(tag, what='python oracle differs from Coq [decl]', model=sorted(dd.items()), oracle=sorted(ps.items())))
             if mp_ == 1:
